@@ -89,6 +89,9 @@ func c12Monitor(o *c12Obs) (fails []Failure, timing map[string]bool) {
 			timing[sig] = true
 		}
 	}
+	if strings.HasPrefix(o.Err, "stalled:") {
+		return // three attempts, each frozen for a second or more: skipped (counted in stats), not judged
+	}
 	if o.Err != "" {
 		add("shutdown/scenario-did-not-run", "the scenario could not be run: "+o.Err, false)
 		return
@@ -217,8 +220,13 @@ func c12Monitor(o *c12Obs) (fails []Failure, timing map[string]bool) {
 	return
 }
 
+var c12Stalled int32
+
 func c12RunCase(c *c12Case) []Failure {
 	c.Obs = c12RunChild(c.Scn)
+	if strings.HasPrefix(c.Obs.Err, "stalled:") {
+		atomic.AddInt32(&c12Stalled, 1)
+	}
 	fails, timing := c12Monitor(c.Obs)
 	if len(timing) == 0 {
 		return fails
@@ -264,6 +272,9 @@ func c12Coq(c *c12Case) string {
 	drained := dur < int64(o.Scn.GraceMs)-150
 	var ev []string
 	for _, e := range o.Events {
+		if e.C < 0 || e.R < 0 || e.C > 3999 || e.R > 3999 {
+			e.C, e.R = 3999, 3999 // a request nobody sent: the model rejects it
+		}
 		switch e.K {
 		case "connect":
 			ev = append(ev, fmt.Sprintf("OConnect %d%%nat", e.C))
@@ -291,10 +302,9 @@ func c12Coq(c *c12Case) string {
 			ev = append(ev, "OExit")
 		}
 	}
-	cp := o.Scn.QueueCap
-	if cp == 0 {
-		cp = 10000000
-	}
+	// the capacity of JobQueue is not validated here (which blocked sender gets the next free slot is not observable,
+	// and the dispatcher's hand is one more slot): the trace is replayed with the framework's default capacity
+	cp := 10000000
 	return fmt.Sprintf("(%d%%nat, %d%%N, [%s])", o.Scn.Pool, cp, strings.Join(ev, "; "))
 }
 
@@ -386,14 +396,24 @@ func c12Gen(tier string, rng *rand.Rand) []c12Case {
 	}
 	nrand := 6
 	if tier == "thorough" {
-		nrand = 60
+		nrand = 240
 	}
 	durs := []int{0, 0, 50, 50, 300}
 	delays := []int{0, 50, 100, 300, 450, 600, 1200}
 	for i := 0; i < nrand; i++ {
-		s := c12Scn{Pool: []int{0, 1, 4, 2}[rng.Intn(4)], Late: rng.Intn(2) == 0, Signal: sigs[rng.Intn(3)]}
+		s := c12Scn{Pool: []int{0, 1, 4, 2}[rng.Intn(4)], Late: rng.Intn(2) == 0, Signal: []string{"TERM", "INT", "USR2", "DIRECT"}[rng.Intn(4)]}
 		if rng.Intn(4) == 0 {
 			s.Phase = "sent"
+		}
+		if s.Pool > 0 && rng.Intn(4) == 0 {
+			s.QueueCap = 1 + rng.Intn(2)
+		}
+		if rng.Intn(12) == 0 {
+			// one slow reader, alone (a stalled client delays the close message of the other connections: see design/C12.md)
+			s.SmallBuf = true
+			s.Conns = []c12ConnScn{{Pre: []int{durs[rng.Intn(len(durs))]}, Bulk: 4 << 20, ReadDelayMs: []int{300, 1200}[rng.Intn(2)]}}
+			add(s)
+			continue
 		}
 		n := 1 + rng.Intn(4)
 		for k := 0; k < n; k++ {
@@ -406,7 +426,33 @@ func c12Gen(tier string, rng *rand.Rand) []c12Case {
 			}
 			cs.Pipelined = rng.Intn(2) == 0
 			cs.PostDelayMs = delays[rng.Intn(len(delays))]
+			switch rng.Intn(16) {
+			case 0:
+				cs.Half = true // the half request is the last thing on this connection: nothing may follow it
+				cs.Post = nil
+				s.GraceMs = 2500
+			case 1:
+				if len(cs.Pre) > 0 {
+					cs.Pre[rng.Intn(len(cs.Pre))] = -1
+					s.GraceMs = 2500
+				}
+			case 2:
+				if len(cs.Pre) > 0 {
+					cs.Pre[rng.Intn(len(cs.Pre))] = 2100 + 100*rng.Intn(6)
+					s.GraceMs = 9000
+				}
+			}
 			s.Conns = append(s.Conns, cs)
+		}
+		if s.Pool > 0 && s.QueueCap > 0 {
+			for _, cs := range s.Conns {
+				for _, d := range cs.Pre {
+					if d < 0 {
+						// a stuck worker and a tiny queue: the server cannot read everything, do not wait for it
+						s.Phase = "sent"
+					}
+				}
+			}
 		}
 		add(s)
 	}
@@ -432,6 +478,7 @@ func init() {
 			Extra: func(tier string, rng *rand.Rand, res *Result) {
 				res.Traces = len(res.Cases)
 				res.Stats["slack_ms"] = c12SlackMs
+				res.Stats["skipped_frozen_process"] = atomic.LoadInt32(&c12Stalled)
 			},
 		}, a)
 	}
